@@ -934,7 +934,7 @@ class EnumConverter(Converter[enum.Enum]):
         val = self.inner_conv.try_convert(val)
         try:
             return self.val_map[val]
-        except KeyError:
+        except (KeyError, TypeError):  # no such member, or (a tuple holding a list) not even hashable
             raise ParseInterrupt()
 
     def collect_errors(self, val: t.Any) -> t.Optional[ErrorNode]:
@@ -946,7 +946,7 @@ class EnumConverter(Converter[enum.Enum]):
         try:
             self.val_map[val]
             return None
-        except KeyError:
+        except (KeyError, TypeError):
             return WrongTypeError(self.expected(), val)
 
 
